@@ -165,6 +165,40 @@ func removeDotSegments(in string) string {
 	return string(out)
 }
 
+func hasDotSegment(p string) bool {
+	for _, x := range strings.Split(p, "/") {
+		if x == "." || x == ".." {
+			return true
+		}
+	}
+	return false
+}
+
+// deepDecode percent-decodes until nothing changes (at most 5 times).
+func deepDecode(p string) string {
+	for i := 0; i < 5; i++ {
+		d := pctDecode(p, false)
+		if d == p {
+			break
+		}
+		p = d
+	}
+	return p
+}
+
+// multiEncoded reports whether decoding the path more than once creates dot
+// segments or slashes that are not there after the one decoding that an HTTP
+// server applies, i.e. whether a proxy that decodes once more than it checked
+// would change the structure of the path.
+func multiEncoded(p string) bool {
+	d1 := pctDecode(p, false)
+	dn := deepDecode(d1)
+	if dn == d1 {
+		return false
+	}
+	return hasDotSegment(dn) && !hasDotSegment(d1) || strings.Count(dn, "/") > strings.Count(d1, "/")
+}
+
 // normalisePath is the "standard normalisation" of the statement.
 func normalisePath(p string) string { return removeDotSegments(pctDecode(p, true)) }
 
@@ -358,7 +392,66 @@ func genID(rng *rand.Rand) string {
 }
 
 var segKinds = []string{"id", "id", "id", "empty", "dot", "dotdot", "encdotdot", "encdot", "encslash",
-	"status", "long", "unicode", "apiword", "encword", "special", "domain"}
+	"status", "long", "unicode", "apiword", "encword", "special", "domain", "multienc"}
+
+// encN percent-encodes every byte of s and then escapes the percent signs
+// depth-1 more times: encN("..", 2, ...) is "%252e%252e".  hexCase: 0 lower, 1
+// upper, 2 mixed per digit.
+func encN(rng *rand.Rand, s string, depth, hexCase int) string {
+	var b strings.Builder
+	for i := 0; i < len(s); i++ {
+		h := fmt.Sprintf("%02x", s[i])
+		switch hexCase {
+		case 1:
+			h = strings.ToUpper(h)
+		case 2:
+			if rng.IntN(2) == 0 {
+				h = strings.ToUpper(h)
+			}
+		}
+		b.WriteString("%" + strings.Repeat("25", depth-1) + h)
+	}
+	return b.String()
+}
+
+// genMultiEnc returns a segment that only becomes a dot segment, or only
+// gains slashes, when it is percent-decoded more than once.
+func genMultiEnc(rng *rand.Rand) string {
+	depth := 2
+	switch x := rng.IntN(100); {
+	case x < 12:
+		depth = 1
+	case x >= 72:
+		depth = 3
+	}
+	hc := rng.IntN(3)
+	dd := func() string {
+		switch rng.IntN(6) {
+		case 0:
+			return "." + encN(rng, ".", depth, hc)
+		case 1:
+			return encN(rng, ".", depth, hc) + "."
+		}
+		return encN(rng, "..", depth, hc)
+	}
+	sl := encN(rng, "/", depth, hc)
+	tail := pick(rng, []string{"admin", "secret", "internal" + sl + "users", genID(rng)})
+	switch rng.IntN(8) {
+	case 0, 1, 2:
+		return dd()
+	case 3:
+		return encN(rng, ".", depth, hc)
+	case 4:
+		// literal dots between multiply encoded slashes
+		return genID(rng) + strings.Repeat(sl+"..", 1+rng.IntN(3)) + sl + tail
+	case 5:
+		return genID(rng) + strings.Repeat(sl+dd(), 1+rng.IntN(3)) + sl + tail
+	case 6:
+		return genID(rng) + sl + genID(rng) + sl + genID(rng)
+	default:
+		return dd() + sl + tail
+	}
+}
 
 func genSeg(rng *rand.Rand, kind string) string {
 	switch kind {
@@ -374,6 +467,8 @@ func genSeg(rng *rand.Rand, kind string) string {
 		return pick(rng, []string{"%2e", "%2E"})
 	case "encslash":
 		return pick(rng, []string{"a%2Fb", "%2f", "..%2F" + genID(rng), genID(rng) + "%2F..", "%2F%2F", genID(rng) + "%2fstatus"})
+	case "multienc":
+		return genMultiEnc(rng)
 	case "status":
 		return "status"
 	case "long":
@@ -417,7 +512,21 @@ func genTemplate(rng *rand.Rand) (segs []string, method string) {
 }
 
 func genPath(rng *rand.Rand) pathT {
-	switch weighted(rng, "template", 45, "grammar", 27, "escape", 22, "fixed", 6) {
+	switch weighted(rng, "template", 41, "grammar", 24, "escape", 19, "multienc", 10, "fixed", 6) {
+	case "multienc":
+		// one of the four documented shapes with a multiply encoded dot
+		// segment / slash in every placeholder position in turn
+		segs, m := genTemplate(rng)
+		pos := 1 + rng.IntN(len(segs)-1)
+		segs[pos] = genMultiEnc(rng)
+		if rng.IntN(4) == 0 {
+			segs[1+rng.IntN(len(segs)-1)] = genMultiEnc(rng)
+		}
+		if m == "GET" && len(segs) == 4 && pos == 3 && rng.IntN(3) > 0 {
+			// keep "status" so that the request is forwarded; move the token
+			segs[3], segs[1+rng.IntN(2)] = "status", segs[3]
+		}
+		return pathT{join(segs), m, "multienc"}
 	case "template":
 		segs, m := genTemplate(rng)
 		mode := "template"
@@ -836,6 +945,12 @@ func fixedCases(localIPs []string) []caseT {
 		{"get", "/linkip/dev1234/0123456789", nil},
 		{"GET", "//linkip/dev1234/0123456789", nil},
 		{"GET", "http://evil.example/linkip/dev1234/0123456789", forged},
+		{"GET", "/linkip/%252e%252e/admin", nil},
+		{"POST", "/ddns/%252E%252E/%252e%252e/admin", nil},
+		{"GET", "/linkip/dev1234/x%252f..%252f..%252f..%252fadmin%252fusers", nil},
+		{"POST", "/linkip/dev1234/a%252Fb%252Fc", nil},
+		{"GET", "/linkip/%25252e%25252e/admin/status", nil},
+		{"POST", "/ddns/dev1234/0123456789/%252e%252e", nil},
 	}
 	var out []caseT
 	for i, f := range list {
@@ -1133,6 +1248,11 @@ func segClass(s string) string {
 		return "status"
 	case len(s) > 200:
 		return "long"
+	case multiEncoded("/" + s):
+		if strings.Contains(deepDecode(s), "/") {
+			return "multienc-slash"
+		}
+		return "multienc-dots"
 	case pctDecode(s, true) == "." || pctDecode(s, true) == "..":
 		return "encdots"
 	case strings.Contains(l, "%2f"):
@@ -1264,6 +1384,10 @@ func (j *judge) evaluate(o *outcome) {
 		if v.HasDot {
 			r.Bucket("dot_segment_requests_sent", 1)
 		}
+		multi := multiEncoded(v.Path)
+		if multi {
+			r.Bucket("multi_encoded_requests_sent", 1)
+		}
 		if q.Lenient != "" {
 			r.Bucket("lenient_requests", 1)
 		}
@@ -1303,9 +1427,25 @@ func (j *judge) evaluate(o *outcome) {
 			if dotted {
 				r.Bucket("backend_paths_with_dot_segments", 1)
 			}
+			// Did the proxy forward the path it checked?  What the back-end
+			// decodes must be what the front decoded (one decoding each).
+			bpRel := strings.TrimPrefix(bp, o.Base)
+			transformed := pctDecode(bpRel, false) != pctDecode(v.Path, false)
+			if transformed {
+				r.Bucket("backend_path_differs_from_request_path_after_one_decoding", 1)
+			}
+			if multi {
+				r.Bucket("multi_encoded_requests_forwarded", 1)
+			}
 			if !underAPI(norm, o.Base) {
 				ex := map[string]any{"backend_path": trunc(bp, 300), "backend_path_normalised": trunc(norm, 300)}
-				if dotted {
+				if transformed {
+					ex["request_path_decoded_once"] = trunc(pctDecode(v.Path, false), 300)
+					ex["backend_path_decoded_once"] = trunc(pctDecode(bpRel, false), 300)
+					r.Violation("proxy:forwarded-path-differs-from-checked-path:escapes-prefix",
+						"the request-target written to the back-end is not the one the client sent (it was percent-decoded again or otherwise rewritten after the allow-list ran) and leaves /linkip/ and /ddns/ after RFC 3986 normalisation",
+						j.witness(o, k, v, ex))
+				} else if dotted {
 					ex["root_cause"] = "internal/websvc/linkip.go shouldProxy (l.173-186), shouldProxyGet/Post (l.191-206) only counts '/'-separated parts of r.URL.Path and compares parts[0]/parts[3]; '.', '..' (also sent as %2e) are accepted as {device_id}/{encrypted}/{domain}, and the rewrite (l.42-43, ProxyRequest.SetURL) forwards the path verbatim"
 					ex["suggested_fix"] = "in shouldProxy return false when any part is \".\" or \"..\" (r.URL.Path is already percent-decoded, so this covers %2e%2e), or require path.Clean(urlPath) == urlPath before splitting"
 					r.Violation("proxy:dot-segment-escapes-prefix",
@@ -1317,6 +1457,28 @@ func (j *judge) evaluate(o *outcome) {
 				}
 			} else if dotted {
 				r.Bucket("backend_dotted_paths_staying_under_prefix", 1)
+			}
+			// The (method, path) the back-end received must itself be one of
+			// the documented shapes under some reading of that path (as
+			// received, or percent-decoded once; placeholders empty or not).
+			shapeOK := false
+			for _, sg := range [][]string{segments(bpRel), segments(pctDecode(bpRel, false))} {
+				for _, ae := range []bool{false, true} {
+					shapeOK = shapeOK || documentedShape(rec.Method, sg, ae)
+				}
+			}
+			if shapeOK {
+				r.Bucket("backend_requests_with_documented_shape", 1)
+			} else {
+				key := "proxy:backend-request-not-a-documented-shape"
+				if transformed {
+					key = "proxy:forwarded-path-differs-from-checked-path:not-a-documented-shape"
+				}
+				r.Violation(key,
+					"the (method, request-target) the back-end received is none of the four documented shapes, neither as received nor percent-decoded once",
+					j.witness(o, k, v, map[string]any{"backend_method": rec.Method, "backend_path": trunc(bp, 300),
+						"backend_segments_decoded_once": len(segments(pctDecode(bpRel, false))),
+						"request_path_decoded_once":     trunc(pctDecode(v.Path, false), 300)}))
 			}
 
 			// client-IP header
@@ -1452,9 +1614,9 @@ func usableLocalIPs() []string {
 func TestCheck(t *testing.T) {
 	r := vkit.Start(t, "C19", "exploration")
 	defer r.Finish()
-	r.Rule("20 hand-written requests (documented shapes, the repository test's near misses, plainest hostile forms), then seeded cases; each case = 1 (7%: 2 consecutive, keep-alive) raw HTTP/1.x request(s) on a fresh TCP connection from one of several 127/8 client addresses: " +
+	r.Rule("26 hand-written requests (documented shapes, the repository test's near misses, plainest hostile forms), then seeded cases; each case = 1 (7%: 2 consecutive, keep-alive) raw HTTP/1.x request(s) on a fresh TCP connection from one of several 127/8 client addresses: " +
 		"method {GET,POST,HEAD,PUT,DELETE,OPTIONS,PATCH,lower/mixed case,garbage tokens,non-tokens} x target " +
-		"(documented template with 0-2 edits | random grammar of 0-6 segments from {id,empty,.,..,%2e%2e,%2e,%2F,status,long,utf-8/escaped,api words,encoded api words,specials,domain} | " +
+		"(documented template with 0-2 edits | random grammar of 0-6 segments from {id,empty,.,..,%2e%2e,%2e,%2F,status,long,utf-8/escaped,api words,encoded api words,specials,domain,double/triple-encoded dots and slashes} | a documented shape with a double/triple percent-encoded dot segment or slash (lower/upper/mixed hex) in each placeholder position | " +
 		"prefix-escape patterns | fixed paths; optional query; origin/absolute/asterisk/authority/no-slash form) x header set " +
 		"(7 listed forwarding headers + X-Connecting-IP + 5 unlisted ones forged, duplicated, case-varied; Connection naming them; bodies, chunked bodies with forged trailer). " +
 		"distinct = (method, target form, sequence of segment classes, query?, forged header set, Connection kind, body kind, protocol); " +
@@ -1539,6 +1701,10 @@ func TestCheck(t *testing.T) {
 	r.Require("forwarded_with_forged_client_ip_header", int64(n/60))
 	r.Require("forwarded_with_connection_naming_header", int64(n/100))
 	r.Require("form_absolute", int64(n/40))
+	// double/triple percent-encoded dot segments and slashes: sent, and
+	// actually forwarded (they have a documented shape after one decoding)
+	r.Require("multi_encoded_requests_sent", int64(n/40))
+	r.Require("multi_encoded_requests_forwarded", int64(n/100))
 	r.Require("distinct_peer_addresses_forwarded", 2)
 	r.Require("local_404", int64(n/6))
 	if to := r.BucketGet("watchdog_timeouts") + r.BucketGet("dial_errors"); to > int64(n/100) {
